@@ -8,6 +8,7 @@ can do to `self`'s attributes and their aliases.  Constructs the translator does
 EUnknown, which the Coq check rejects."""
 import ast
 import os
+from ..repo_root import REPO
 
 MUTATORS = {"update", "append", "extend", "pop", "popitem", "clear", "sort", "reverse", "setdefault", "insert", "remove",
             "add", "discard", "fit", "partial_fit", "set_params", "fill", "resize", "put", "itemset", "appendleft", "popleft",
@@ -177,7 +178,7 @@ class MethodEffects(ast.NodeVisitor):
         self.generic_visit(node)
 
 
-def load_package(root="/repo/skactiveml"):
+def load_package(root=REPO + "/skactiveml"):
     classes = {}
     for dp, dn, fs in os.walk(root):
         if "tests" in dp.split(os.sep):
@@ -195,7 +196,7 @@ def load_package(root="/repo/skactiveml"):
                             bases.append(b.id)
                         elif isinstance(b, ast.Attribute):
                             bases.append(b.attr)
-                    classes.setdefault(node.name, {"node": node, "bases": bases, "file": os.path.relpath(path, "/repo")})
+                    classes.setdefault(node.name, {"node": node, "bases": bases, "file": os.path.relpath(path, REPO)})
     return classes
 
 
@@ -238,7 +239,7 @@ def params_of(classes, name):
     return []
 
 
-def analyse(root="/repo/skactiveml"):
+def analyse(root=REPO + "/skactiveml"):
     classes = load_package(root)
     table = []
     for cname in sorted(classes):
